@@ -161,3 +161,33 @@ Definition e_c05_spec_consensus (v : val) : val :=
       VL [c05_vQ loc; c05_vQ (biweight_midvar_sq_spec 9 eps_1e3 mad_to_sd col loc)]
   | None => bad_input
   end.
+
+(* the FASTA arrives as [[name; sequence]]; a name that is absent reads as the empty sequence (pyfaidx raises) *)
+Fixpoint c05_seq_of (fa : list (string * string)) (name : string) : list ascii :=
+  match fa with
+  | [] => []
+  | (n, s) :: t => if String.eqb n name then chars s else c05_seq_of t name
+  end.
+
+Definition c05_vOptQ (o : option Q) : val := match o with Some q => c05_vQ q | None => VNone end.
+
+(* [fasta | None; do_gc; do_rmask; target bins; antitarget bins; gc column of the first target file | None;
+    gc column of the first antitarget file | None]
+   -> [has gc column; has rmask column; rows [chrom; start; end; gene; gc | None; rmask | None]] *)
+Definition e_c05_pool_gc (v : val) : val :=
+  match v with
+  | VL [fa; g; r; ts; az; tg; ag] =>
+      match getOpt (getList (getPair getS getS)) fa, getB g, getB r,
+            getList c05_getRegion ts, getList c05_getRegion az,
+            getOpt (getList getQ) tg, getOpt (getList getQ) ag with
+      | Some fa', Some g', Some r', Some ts', Some az', Some tg', Some ag' =>
+          let '(hg, hr, rows) := pool_gc (option_map c05_seq_of fa') g' r' ts' az' tg' ag' in
+          VL [VB hg; VB hr;
+              VL (map (fun x : gcrow =>
+                         let b := g_bin x in
+                         VL [VS (b_chrom b); VZ (b_start b); VZ (b_end b); VS (b_gene b);
+                             c05_vOptQ (g_gc x); c05_vOptQ (g_rmask x)]) rows)]
+      | _, _, _, _, _, _, _ => bad_input
+      end
+  | _ => bad_input
+  end.
